@@ -30,6 +30,8 @@ def main():
         from vt import selftest
         sys.exit(selftest.main(a.tier))
     pid = a.what
+    import warnings
+    warnings.filterwarnings("ignore", category=UserWarning)
     import torch
     torch.set_default_dtype(torch.float64)
     torch.distributions.Distribution.set_default_validate_args(False)
